@@ -8,6 +8,9 @@ set_option linter.unusedSimpArgs false
 namespace Hyp.Score
 open Hyp Hyp.SetOps Hyp.SetSpec
 
+-- for any BM25 parameters (`Score.Bm25`: `K1`, `B` of the scoring loop, `K1` of `query_weight`)
+variable [Bm25 ℝ]
+
 theorem containsPhrase_iff (p d : List Nat) : containsPhrase p d = true ↔ p <:+: d := by
   induction d with
   | nil => simp [containsPhrase, List.infix_nil]
@@ -167,7 +170,7 @@ theorem queryWeight_spec (k : Kind) (s : State) (wids : List Nat) :
     apply List.map_congr_left
     intro t _
     rw [idf_eq s.T _ (length_docsWith s.T t)]
-    simp only [Score.k1, ScoreSpec.k1]; ring
+    simp only [Score.kq, ScoreSpec.kq]; ring
   | cosine =>
     simp only [Scalar.sumFrom]
     congr 2
